@@ -237,9 +237,75 @@ emit("own cells", table.unpack(vals))
 	}
 }
 
+// structureSizes: chunks whose structure (not their behaviour) is large - N
+// nested function literals, N sibling functions, N distinct constants - are
+// accepted by the parser and the compiler; whatever string.dump accepts, load
+// of the dump must accept too and the reloaded chunk must compute the same.
+func structureSizes(c *vp.Child) {
+	k := 0
+	for _, shape := range []struct{ name, build, use string }{
+		{"nested-functions", `("return function() "):rep(N) .. "return 'leaf'" .. (" end"):rep(N)`, `local v = g for i = 1, N + 1 do v = v() end return v`},
+		{"sibling-functions", `(function() local t = {"local fs = {}"} for i = 1, N do t[#t + 1] = "fs[" .. i .. "] = function() return " .. i .. " end" end t[#t + 1] = "return fs" return table.concat(t, "\n") end)()`, `local fs = g() local s = 0 for i = 1, N do s = s + fs[i]() end return s`},
+		{"constants", `(function() local t = {} for i = 1, N do t[#t + 1] = "'k" .. i .. "'" end return "return select('#', " .. table.concat(t, ", ") .. ")" end)()`, `return g()`},
+	} {
+		for _, n := range []int{1, 50, 199, 200, 201, 202, 255, 256, 257, 1000, 2000} {
+			if shape.name == "constants" && n > 250 {
+				continue // a call takes at most ~250 arguments
+			}
+			k++
+			if !c.Mine(k) {
+				continue
+			}
+			text := fmt.Sprintf(`local N = %d
+local src = %s
+local f, e0 = load(src, "=src")
+if not f then emit("source rejected") return end
+local function run(g) %s end
+emit("original", pcall(run, f))
+local d = string.dump(f)
+local g, e = load(d, "=dump", "b")
+emit("reload", g ~= nil, e)
+if g then emit("reloaded", pcall(run, g)) emit("same dump", string.dump(g) == d) end
+`, n, shape.build, shape.use)
+			label := fmt.Sprintf("structure/%s/N=%d", shape.name, n)
+			c.Begin(label, text)
+			out := eng.RunText(text, nil)
+			c.Eval(1)
+			c.NonTrivial(vp.Hash(label))
+			fail := func(what string) {
+				c.Violation("structure-size", label, what+"\ntrace: "+strings.Join(out.Trace, " | ")+"\noutcome: "+out.Kind+" "+out.ErrMsg+out.PanicMsg, text)
+			}
+			if out.Kind != gl.OK {
+				fail("the template did not run to its end")
+				continue
+			}
+			tv := out.TraceV
+			if len(tv) == 1 && len(tv[0]) == 1 && tv[0][0] == `s:"source rejected"` {
+				c.Feature("structure-source-rejected", 1)
+				continue // the compiler refuses the source: nothing to dump
+			}
+			if len(tv) != 4 {
+				fail("load of the dump failed or the events are incomplete")
+				continue
+			}
+			if len(tv[1]) < 2 || tv[1][1] != "b:true" {
+				fail("load(string.dump(f)) refused a chunk that the compiler and string.dump accepted: " + strings.Join(tv[1], " "))
+				continue
+			}
+			if strings.Join(tv[0][1:], " ") != strings.Join(tv[2][1:], " ") {
+				fail("the reloaded chunk computes " + strings.Join(tv[2][1:], " ") + ", the original " + strings.Join(tv[0][1:], " "))
+			}
+			if len(tv[3]) < 2 || tv[3][1] != "b:true" {
+				fail("the dump of the reloaded chunk differs from the dump it was loaded from")
+			}
+		}
+	}
+}
+
 func (Prop) RunBatch(c *vp.Child) {
 	if c.Stage == "dump-load" {
 		upvalueLayout(c)
+		structureSizes(c)
 	}
 	var wrapped int64
 	cp := eng.Corpus{
